@@ -57,6 +57,7 @@ type encoderState struct {
 	jsonopts.Struct
 
 	SeenPointers map[any]struct{} // only used when marshaling; identical to json.seenPointers
+	PointerDepth int              // only used when marshaling; number of Go pointers currently being followed
 }
 
 // encodeBuffer is a buffer split into 2 segments:
